@@ -37,7 +37,7 @@ def _cond(w, wn, c):
     C = w.network.controls
     if c["op"] == "atom":
         cls = C.SimTimeCondition if c["t"] == "sim" else C.TimeOfDayCondition
-        return cls(wn, c["rel"], int(c["thr"]))
+        return cls(wn, c["rel"], c["text"] if c.get("text") else int(c["thr"]))
     a, b = _cond(w, wn, c["a"]), _cond(w, wn, c["b"])
     return C.AndCondition(a, b) if c["op"] == "and" else C.OrCondition(a, b)
 
@@ -47,9 +47,11 @@ def attach_controls(w, wn, scn, link_of):
     for i, c in enumerate(scn["ctl"]):
         act = C.ControlAction(link_of(c["link"]), "status", _status(w, c["val"]))
         if c["kind"] == "sim":
-            cond = C.SimTimeCondition(wn, "=", int(c["thr"]), repeat=(c["rep"] if c["rep"] else False))
+            # the configured instant is first_time + threshold (first_time is "time 0 of the condition")
+            first = int(c.get("first", 0))
+            cond = C.SimTimeCondition(wn, "=", int(c["thr"]) - first, repeat=(c["rep"] if c["rep"] else False), first_time=first)
         else:
-            cond = C.TimeOfDayCondition(wn, "=", int(c["thr"]))
+            cond = C.TimeOfDayCondition(wn, "=", c["text"] if c.get("text") else int(c["thr"]))
         wn.add_control("ctl%d" % i, C.Control(cond, act, priority=c["prio"]))
     for i, r in enumerate(scn["rules"]):
         then = [C.ControlAction(link_of(a["link"]), "status", _status(w, a["val"])) for a in r["then"]]
